@@ -383,6 +383,9 @@ impl<'a> Engine<'a> {
         }
         let alive = ledger::alive_count();
         let want = 2 * stored_entries + self.h.leaked_ok;
+        if alive > want && self.h.fault_leak {
+            return; // elements leaked by an injected user panic: tolerated
+        }
         if alive != want {
             let what = if alive > want { "leak" } else { "destroyed-too-many" };
             let ids = ledger::alive_ids();
@@ -758,43 +761,90 @@ impl<'a> Engine<'a> {
     fn op_retain<F: Fam, const N: usize>(&mut self, s: &mut Sut<F, N>) {
         let mask = self.rng.next();
         let mutate = self.rng.chance(1, 2);
-        self.step("retain", || format!("retain(mask={:#06x}, mutate={})", mask & 0xFFFF, mutate));
-        self.fp_step(s, O_RETAIN, 0, (mask & ((1 << (self.universe + 1)) - 1)) ^ u64::from(mutate) << 40);
+        let len0 = s.model.len();
+        // sometimes the predicate panics at its k-th call (C04 meets C01: the map must stay a dictionary)
+        let panic_at: Option<usize> = if len0 > 0 && self.rng.chance(1, 6) { Some(1 + self.rng.usize_below(len0)) } else { None };
+        self.step("retain", || format!("retain(mask={:#06x}, mutate={}{})", mask & 0xFFFF, mutate, panic_at.map_or(String::new(), |k| format!(", predicate panics at call {}", k))));
+        self.fp_step(s, O_RETAIN, u32::from(panic_at.is_some()), (mask & ((1 << (self.universe + 1)) - 1)) ^ u64::from(mutate) << 40);
         let keep = |class: u32| (mask >> (class % 60)) & 1 == 1;
         let nkeep = s.model.ents.iter().filter(|e| keep(e.class)).count();
-        let outcome = if nkeep == s.model.len() { "keep-all" } else if nkeep == 0 { "drop-all" } else { "some" };
+        let outcome = if panic_at.is_some() { "predicate-panics" } else if nkeep == s.model.len() { "keep-all" } else if nkeep == 0 { "drop-all" } else { "some" };
         if !self.light { self.cx.rep.hit(&format!("retain:{}:{}", outcome, fill_name(s.model.len(), N))); }
         let mut calls: Vec<u32> = Vec::new();
         let mut bad = false;
-        s.fr.get_mut().retain(|k, v| {
-            if !(k.chk("retain() key") & v.chk("retain() value")) {
-                bad = true;
-                return true;
-            }
-            calls.push(k.class());
-            let kp = keep(k.class());
-            if mutate && kp {
-                let p = v.payload();
-                v.set_payload(p.wrapping_add(1_000_000));
-            }
-            kp
-        });
+        let r = {
+            let map = s.fr.get_mut();
+            fault::catch(|| {
+                map.retain(|k, v| {
+                    if !(k.chk("retain() key") & v.chk("retain() value")) {
+                        bad = true;
+                        return true;
+                    }
+                    calls.push(k.class());
+                    if Some(calls.len()) == panic_at {
+                        std::panic::panic_any(fault::Injected(fault::Cb::Closure, 0));
+                    }
+                    let kp = keep(k.class());
+                    if mutate && kp {
+                        let p = v.payload();
+                        v.set_payload(p.wrapping_add(1_000_000));
+                    }
+                    kp
+                })
+            })
+        };
         if bad {
             self.h.failed = true;
         }
-        // the predicate must have been asked exactly once per stored entry
-        let mut sorted = calls.clone();
-        sorted.sort_unstable();
-        let mut want = s.model.classes();
-        want.sort_unstable();
-        if sorted != want {
-            self.h.viol("C01", "retain-visits", format!("retain called its predicate for classes {:?}, the stored classes were {:?}", calls, want));
-        }
-        s.model.ents.retain(|e| keep(e.class));
-        if mutate {
-            for e in &mut s.model.ents {
-                e.payload = e.payload.wrapping_add(1_000_000);
+        match r {
+            Caught::Ok(()) => {
+                // the predicate must have been asked exactly once per stored entry
+                let mut sorted = calls.clone();
+                sorted.sort_unstable();
+                let mut want = s.model.classes();
+                want.sort_unstable();
+                if sorted != want {
+                    self.h.viol("C01", "retain-visits", format!("retain called its predicate for classes {:?}, the stored classes were {:?}", calls, want));
+                }
+                s.model.ents.retain(|e| keep(e.class));
+                if mutate {
+                    for e in &mut s.model.ents {
+                        e.payload = e.payload.wrapping_add(1_000_000);
+                    }
+                }
             }
+            Caught::Injected(..) => {
+                self.h.fault_leak = true;
+                self.cx.rep.num("retains_interrupted_by_a_predicate_panic", 1);
+                let asked: Vec<u32> = calls[..calls.len().saturating_sub(1)].to_vec();
+                let present: Vec<u32> = s.fr.get().iter().map(|(k, _)| k.class()).collect();
+                let mut dedup = present.clone();
+                dedup.sort_unstable();
+                dedup.dedup();
+                if dedup.len() != present.len() {
+                    self.h.viol("C01", "not-a-dictionary-after-interrupted-retain", format!("after a retain interrupted by a predicate panic the map yields key classes {:?}: a key is stored twice", present));
+                }
+                for c in &present {
+                    if s.model.get(*c).is_none() {
+                        self.h.viol("C01", "phantom-after-interrupted-retain", format!("after an interrupted retain the map holds class {} which it did not hold before", c));
+                    }
+                }
+                for e in &s.model.ents {
+                    let must_stay = !calls.contains(&e.class) || (asked.contains(&e.class) && keep(e.class)) || calls.last() == Some(&e.class);
+                    if must_stay && !present.contains(&e.class) {
+                        self.h.viol("C01", "lost-by-interrupted-retain", format!("class {} was accepted by (or never shown to) the predicate but is gone after the interrupted retain", e.class));
+                    }
+                }
+                s.model.ents.retain(|e| present.contains(&e.class));
+                if mutate {
+                    for e in &mut s.model.ents {
+                        if asked.contains(&e.class) && keep(e.class) {
+                            e.payload = e.payload.wrapping_add(1_000_000);
+                        }
+                    }
+                }
+            }
+            Caught::Panic(msg) => self.h.viol("C01", "unexpected-panic", format!("retain panicked: {}", msg)),
         }
     }
 
@@ -816,16 +866,38 @@ impl<'a> Engine<'a> {
         if !self.light { self.cx.rep.hit(&format!("drain:{}:{}:{}", if j == 0 { "take0" } else if j >= len { "take-all" } else { "take-some" }, if forget { "forget" } else { "drop" }, fill_name(len, N))); }
         let before = s.model.clone();
         let mut yielded: Vec<u32> = Vec::new();
+        // C04 meets C10: sometimes a single-shot panic is armed among the element destructors that the
+        // drain's next() / drop run; the walk continues afterwards and the map must still end up empty
+        let armed = F::TRACKED && !forget && self.rng.chance(1, 5);
+        let mut injected = false;
         {
             let m = s.fr.get_mut();
             let mut d = m.drain();
+            if armed {
+                fault::arm_paused(1 + self.rng.below(2 * len as u64 + 2));
+            }
             for step in 0..j {
                 let remaining = len.saturating_sub(step);
                 let (lo, hi) = d.size_hint();
-                if d.len() != remaining || lo != remaining || hi != Some(remaining) {
+                if !injected && (d.len() != remaining || lo != remaining || hi != Some(remaining)) {
                     self.h.viol("C10", "drain-len", format!("drain after {} of {} items: len() = {}, size_hint = ({}, {:?}), expected {}", step, len, d.len(), lo, hi, remaining));
                 }
-                match d.next() {
+                let nx = if armed {
+                    match fault::catch_live(|| d.next()) {
+                        Caught::Ok(x) => x,
+                        Caught::Injected(..) => {
+                            injected = true;
+                            continue;
+                        }
+                        Caught::Panic(msg) => {
+                            self.h.viol("C10", "next-panics", format!("Drain::next() panicked: {}", msg));
+                            break;
+                        }
+                    }
+                } else {
+                    d.next()
+                };
+                match nx {
                     Some((k, v)) => {
                         if !(k.chk("drain item key") & v.chk("drain item value")) {
                             self.h.failed = true;
@@ -850,7 +922,7 @@ impl<'a> Engine<'a> {
                         }
                     }
                     None => {
-                        if step < len {
+                        if step < len && !injected {
                             self.h.viol("C10", "drain-short", format!("drain ended after {} items; the map held {}", step, len));
                         }
                         // None forever after the end
@@ -865,8 +937,19 @@ impl<'a> Engine<'a> {
             }
             if forget {
                 std::mem::forget(d);
+            } else if armed {
+                if let Caught::Injected(..) = fault::catch_live(|| drop(d)) {
+                    injected = true;
+                }
             } else {
                 drop(d);
+            }
+            if armed {
+                let (_, fired, _) = fault::end();
+                if fired.is_some() || injected {
+                    self.h.fault_leak = true;
+                    self.cx.rep.num("faults_injected_into_iterator_walks", 1);
+                }
             }
         }
         let not_yielded: Vec<Ent> = before.ents.iter().filter(|e| !yielded.contains(&e.class)).cloned().collect();
@@ -912,15 +995,37 @@ impl<'a> Engine<'a> {
         let map = s.fr.take();
         let mut got: Vec<u32> = Vec::new(); // classes (or payloads for into_values)
         let mut got_ids: Vec<u64> = Vec::new();
+        // C04 meets C10: in a share of the walks a single-shot panic is armed somewhere among the user
+        // callbacks (element destructors) that next() / the iterator's drop make; the walk goes on afterwards
+        let armed = F::TRACKED && !forget && self.rng.chance(1, 5);
+        let mut injected = false;
+        if armed {
+            fault::arm_paused(1 + self.rng.below(2 * len as u64 + 2));
+        }
         macro_rules! walk {
             ($it:ident, $item:ident => $chk:expr, $ident:expr, $id:expr) => {{
                 for step in 0..j {
                     let remaining = len.saturating_sub(step);
                     let (lo, hi) = $it.size_hint();
-                    if $it.len() != remaining || lo != remaining || hi != Some(remaining) {
+                    if !injected && ($it.len() != remaining || lo != remaining || hi != Some(remaining)) {
                         self.h.viol("C10", "consume-len", format!("{} after {} of {} items: len() = {}, size_hint = ({}, {:?}), expected {}", kname, step, len, $it.len(), lo, hi, remaining));
                     }
-                    match $it.next() {
+                    let nx = if armed {
+                        match fault::catch_live(|| $it.next()) {
+                            Caught::Ok(x) => x,
+                            Caught::Injected(..) => {
+                                injected = true;
+                                continue;
+                            }
+                            Caught::Panic(msg) => {
+                                self.h.viol("C10", "next-panics", format!("{}.next() panicked: {}", kname, msg));
+                                break;
+                            }
+                        }
+                    } else {
+                        $it.next()
+                    };
+                    match nx {
                         Some($item) => {
                             if !$chk {
                                 self.h.failed = true;
@@ -933,7 +1038,7 @@ impl<'a> Engine<'a> {
                             }
                         }
                         None => {
-                            if step < len {
+                            if step < len && !injected {
                                 self.h.viol("C10", "consume-short", format!("{} ended after {} items; the map held {}", kname, step, len));
                             }
                             for _ in 0..2 {
@@ -947,6 +1052,10 @@ impl<'a> Engine<'a> {
                 }
                 if forget {
                     std::mem::forget($it);
+                } else if armed {
+                    if let Caught::Injected(..) = fault::catch_live(|| drop($it)) {
+                        injected = true;
+                    }
                 } else {
                     drop($it);
                 }
@@ -964,6 +1073,13 @@ impl<'a> Engine<'a> {
             _ => {
                 let mut it = map.into_values();
                 walk!(it, v => v.chk("into_values item"), v.payload(), v.id());
+            }
+        }
+        if armed {
+            let (_, fired, _) = fault::end();
+            if fired.is_some() || injected {
+                self.h.fault_leak = true;
+                self.cx.rep.num("faults_injected_into_iterator_walks", 1);
             }
         }
         // what was yielded must be distinct stored entries
@@ -986,6 +1102,7 @@ impl<'a> Engine<'a> {
             let remaining = before.len() - got.len().min(before.len());
             self.h.leaked_ok += 2 * remaining;
         }
+        let _ = injected;
         s.fr.put(Map::new());
         s.order.clear();
     }
